@@ -435,4 +435,139 @@ theorem rt_pushPromise (a : Bool) (sid pr : Nat) (eh : Bool) (pl : Nat) (frag : 
     · have e : 1 + 4 + frag.length + pl - frag.length - 4 - 1 = pl := by omega
       cases eh <;> simp [toFrame, readHdr, has, flagsHas, mod31_lt sid hs, flagPushPromiseEndHeaders, flagPushPromisePadded, e]
 
+/-! #### DATA, HEADERS (the arithmetic is `Lemmas.H2Frame`; here: the regenerated writer produces that layout) -/
+
+theorem rt_data_plain (a : Bool) (sid : Nat) (es : Bool) (d : Bytes) (h0 : 0 < sid) (hs : sid < 2 ^ 31) (hd : d.length < 2 ^ 24) :
+    roundTrip a (.data sid es d none) = some (.ok (.data sid es d none)) := by
+  have hv : validStreamID sid = true := (validStreamID_iff sid (by omega)).2 ⟨by omega, hs⟩
+  have hr : wDataRefuse a sid es d true [] = false := by simp [wDataRefuse, hv]
+  have hne : sid % 2 ^ 31 ≠ 0 := by rw [mod31_lt sid hs]; omega
+  apply roundTrip_of a _ ⟨d.length, 0, (if es then 1 else 0), sid⟩ d (.data d)
+  · simp only [Frame.write, Option.isNone_none, Option.getD_none]
+    rw [hr]
+    have : wDataPayload a sid es d true [] = d := by simp [wDataPayload]
+    rw [this, finishWrite_ok _ _ _ _ hd]
+    cases es <;> simp [wDataType, wDataFlags, wDataSid]
+  · rw [parsePayload_data _ _ rfl]
+    unfold parseDataFrame
+    have hf : MosnVerif.Model.H2Frame.hasFlag (readHdr ⟨d.length, 0, (if es then 1 else 0), sid⟩).flags MosnVerif.Gen.H2Frame.flagDataPadded = false := by
+      cases es <;> simp [readHdr, MosnVerif.Model.H2Frame.hasFlag, MosnVerif.Gen.H2Frame.flagDataPadded]
+    have := MosnVerif.Lemmas.H2Frame.data_roundtrip_plain _ d hf
+    simp only [MosnVerif.Model.H2Frame.encodeData] at this
+    rw [if_neg (by simpa [readHdr] using hne), this]
+  · cases es <;> simp [toFrame, readHdr, has, flagsHas, mod31_lt sid hs, flagDataEndStream, flagDataPadded]
+
+theorem rt_data_padded (a : Bool) (sid : Nat) (es : Bool) (d : Bytes) (k : Nat) (h0 : 0 < sid) (hs : sid < 2 ^ 31) (hk : k ≤ 255)
+    (hd : d.length + 256 < 2 ^ 24) :
+    roundTrip a (.data sid es d (some (List.replicate k 0))) = some (.ok (.data sid es d (some (List.replicate k 0)))) := by
+  have hv : validStreamID sid = true := (validStreamID_iff sid (by omega)).2 ⟨by omega, hs⟩
+  have hany : (List.replicate k (0 : UInt8)).any (fun b => decide (b.toNat ≠ 0)) = false := by
+    simp [List.any_replicate]
+  have hr : wDataRefuse a sid es d false (List.replicate k 0) = false := by
+    have : ¬ k > 255 := by omega
+    simp [wDataRefuse, hv, hany, this]
+  have hne : sid % 2 ^ 31 ≠ 0 := by rw [mod31_lt sid hs]; omega
+  apply roundTrip_of a _ ⟨1 + d.length + k, 0, (if es then 1 else 0) ||| 8, sid⟩ (MosnVerif.Model.H2Frame.encodeData d (some k)) (.data d)
+  · simp only [Frame.write, Option.isNone_some, Option.getD_some]
+    rw [hr]
+    have : wDataPayload a sid es d false (List.replicate k 0) = MosnVerif.Model.H2Frame.encodeData d (some k) := by
+      simp [wDataPayload, MosnVerif.Model.H2Frame.encodeData, u8be, Nat.mod_eq_of_lt (show k < 256 by omega)]
+    rw [this, finishWrite_ok _ _ _ _ (by simp [MosnVerif.Model.H2Frame.encodeData]; omega)]
+    cases es <;> simp [wDataType, wDataFlags, wDataSid, MosnVerif.Model.H2Frame.encodeData] <;> omega
+  · rw [parsePayload_data _ _ rfl]
+    unfold parseDataFrame
+    have hf : MosnVerif.Model.H2Frame.hasFlag (readHdr ⟨1 + d.length + k, 0, (if es then 1 else 0) ||| 8, sid⟩).flags MosnVerif.Gen.H2Frame.flagDataPadded = true := by
+      cases es <;> simp [readHdr, MosnVerif.Model.H2Frame.hasFlag, MosnVerif.Gen.H2Frame.flagDataPadded]
+    rw [if_neg (by simpa [readHdr] using hne), MosnVerif.Lemmas.H2Frame.data_roundtrip_padded _ d k (by omega) hf]
+  · have e : 1 + d.length + k - 1 - d.length = k := by omega
+    cases es <;> simp [toFrame, readHdr, has, flagsHas, mod31_lt sid hs, flagDataEndStream, flagDataPadded, e]
+
+/-- the optional priority of a HEADERS frame: `WriteHeaders` writes it iff it is not the zero value -/
+def prioOpt (pr : Priority) : Option Priority := if prioZero pr then none else some pr
+
+theorem prioOpt_getD (pr : Priority) : (prioOpt pr).getD ⟨0, false, 0⟩ = pr := by
+  obtain ⟨d, e, w⟩ := pr
+  unfold prioOpt prioZero
+  by_cases h : (d == 0 && !e && w == 0) = true
+  · simp only [h, if_true, Option.getD_none]
+    simp only [Bool.and_eq_true, beq_iff_eq, Bool.not_eq_true'] at h
+    obtain ⟨⟨h1, h2⟩, h3⟩ := h
+    subst h1 h2 h3; rfl
+  · simp [h]
+
+theorem u32be_div (v : Nat) : u32be v = [UInt8.ofNat (v / 2 ^ 24), UInt8.ofNat (v / 2 ^ 16), UInt8.ofNat (v / 2 ^ 8), UInt8.ofNat v] := by
+  simp only [u32be, Nat.shiftRight_eq_div_pow]
+  have m : ∀ x : Nat, UInt8.ofNat (x % 256) = UInt8.ofNat x := by
+    intro x; apply UInt8.toNat_inj.1; simp
+  rw [m, m, m, m]
+
+theorem wHeadersPayload_eq (a : Bool) (sid : Nat) (es eh : Bool) (pl : Nat) (pr : Priority) (frag : Bytes) (hd : pr.streamDep < 2 ^ 31) :
+    wHeadersPayload a sid es eh pl (prioZero pr) pr.streamDep pr.exclusive pr.weight frag =
+      MosnVerif.Model.H2Frame.encodeHeaders frag pl (prioOpt pr) := by
+  unfold wHeadersPayload MosnVerif.Model.H2Frame.encodeHeaders prioOpt
+  cases hpz : prioZero pr with
+  | true => simp [u8be]
+  | false =>
+    have e1 : (pr.streamDep ||| if pr.exclusive = true then 2147483648 else 0) =
+        pr.streamDep + (if pr.exclusive then 2 ^ 31 else 0) := or_bit31 pr.streamDep hd pr.exclusive
+    simp only [Bool.not_false, Bool.true_and, if_true, Bool.false_eq_true, if_false]
+    rw [e1, u32be_div]
+    simp [MosnVerif.Model.H2Frame.encodePrio, u8be]
+
+theorem hasFlag_headers (es eh : Bool) (pl : Nat) (pz : Bool) :
+    MosnVerif.Model.H2Frame.hasFlag ((((0 ||| (if decide (pl ≠ 0) then 8 else 0)) ||| (if es then 1 else 0)) ||| (if eh then 4 else 0)) ||| (if !pz then 32 else 0))
+        MosnVerif.Gen.H2Frame.flagHeadersPadded = decide (pl ≠ 0) ∧
+    MosnVerif.Model.H2Frame.hasFlag ((((0 ||| (if decide (pl ≠ 0) then 8 else 0)) ||| (if es then 1 else 0)) ||| (if eh then 4 else 0)) ||| (if !pz then 32 else 0))
+        MosnVerif.Gen.H2Frame.flagHeadersPriority = !pz := by
+  by_cases h : pl = 0 <;> cases es <;> cases eh <;> cases pz <;>
+    simp [h, MosnVerif.Model.H2Frame.hasFlag, MosnVerif.Gen.H2Frame.flagHeadersPadded, MosnVerif.Gen.H2Frame.flagHeadersPriority]
+
+theorem rt_headers (a : Bool) (sid : Nat) (es eh : Bool) (pl : Nat) (pr : Priority) (frag : Bytes) (h0 : 0 < sid) (hs : sid < 2 ^ 31)
+    (hpl : pl < 256) (hd : pr.streamDep < 2 ^ 31) (hw : pr.weight < 256) (hf : frag.length + 262 < 2 ^ 24) :
+    roundTrip a (.headers sid es eh pl pr frag) = some (.ok (.headers sid es eh pl pr frag)) := by
+  have hv : validStreamID sid = true := (validStreamID_iff sid (by omega)).2 ⟨by omega, hs⟩
+  have hz : validStreamIDOrZero pr.streamDep = true := (validStreamIDOrZero_iff _ (by omega)).2 hd
+  have hr : wHeadersRefuse a sid es eh pl (prioZero pr) pr.streamDep pr.exclusive pr.weight frag = false := by
+    simp [wHeadersRefuse, hv, hz]
+  have hne : sid % 2 ^ 31 ≠ 0 := by rw [mod31_lt sid hs]; omega
+  have hlen : (MosnVerif.Model.H2Frame.encodeHeaders frag pl (prioOpt pr)).length =
+      (if pl ≠ 0 then 1 else 0) + (if prioZero pr then 0 else 5) + frag.length + pl := by
+    unfold MosnVerif.Model.H2Frame.encodeHeaders prioOpt
+    by_cases c1 : pl = 0 <;> by_cases c2 : prioZero pr = true <;> simp [c1, c2, MosnVerif.Model.H2Frame.encodePrio] <;> omega
+  apply roundTrip_of a _ ⟨(MosnVerif.Model.H2Frame.encodeHeaders frag pl (prioOpt pr)).length, 1,
+      wHeadersFlags a sid es eh pl (prioZero pr) pr.streamDep pr.exclusive pr.weight frag, sid⟩
+      (MosnVerif.Model.H2Frame.encodeHeaders frag pl (prioOpt pr)) (.headers (prioOpt pr) frag)
+  · show finishWrite (wHeadersRefuse a sid es eh pl (prioZero pr) pr.streamDep pr.exclusive pr.weight frag) _ _ _ _ = _
+    rw [hr, wHeadersPayload_eq a sid es eh pl pr frag hd, finishWrite_ok _ _ _ _ (by rw [hlen]; split <;> split <;> omega)]
+    rfl
+  · rw [parsePayload_headers _ _ rfl]
+    unfold parseHeadersFrame
+    have hfl := hasFlag_headers es eh pl (prioZero pr)
+    have hso : (prioOpt pr).isSome = !prioZero pr := by unfold prioOpt; cases prioZero pr <;> rfl
+    have := MosnVerif.Lemmas.H2Frame.headers_roundtrip'
+      (readHdr ⟨(MosnVerif.Model.H2Frame.encodeHeaders frag pl (prioOpt pr)).length, 1,
+        wHeadersFlags a sid es eh pl (prioZero pr) pr.streamDep pr.exclusive pr.weight frag, sid⟩).flags frag pl (prioOpt pr) hpl
+      (by intro p hp; unfold prioOpt at hp; split at hp
+          · cases hp
+          · cases hp; exact ⟨hd, hw⟩)
+      hfl.1 (by rw [hso]; exact hfl.2)
+    rw [if_neg (by simpa [readHdr] using hne), this]
+  · have hfl := hasFlag_headers es eh pl (prioZero pr)
+    simp only [toFrame, readHdr, mod31_lt sid hs, prioOpt_getD]
+    have e1 : has ⟨(MosnVerif.Model.H2Frame.encodeHeaders frag pl (prioOpt pr)).length, 1,
+        wHeadersFlags a sid es eh pl (prioZero pr) pr.streamDep pr.exclusive pr.weight frag, sid⟩ flagHeadersEndStream = es := by
+      by_cases h : pl = 0 <;> cases es <;> cases eh <;> cases prioZero pr <;> simp [has, flagsHas, wHeadersFlags, flagHeadersEndStream, h]
+    have e2 : has ⟨(MosnVerif.Model.H2Frame.encodeHeaders frag pl (prioOpt pr)).length, 1,
+        wHeadersFlags a sid es eh pl (prioZero pr) pr.streamDep pr.exclusive pr.weight frag, sid⟩ flagHeadersEndHeaders = eh := by
+      by_cases h : pl = 0 <;> cases es <;> cases eh <;> cases prioZero pr <;> simp [has, flagsHas, wHeadersFlags, flagHeadersEndHeaders, h]
+    have e3 : has ⟨(MosnVerif.Model.H2Frame.encodeHeaders frag pl (prioOpt pr)).length, 1,
+        wHeadersFlags a sid es eh pl (prioZero pr) pr.streamDep pr.exclusive pr.weight frag, sid⟩ flagHeadersPadded = decide (pl ≠ 0) := by
+      by_cases h : pl = 0 <;> cases es <;> cases eh <;> cases prioZero pr <;> simp [has, flagsHas, wHeadersFlags, flagHeadersPadded, h]
+    have e4 : has ⟨(MosnVerif.Model.H2Frame.encodeHeaders frag pl (prioOpt pr)).length, 1,
+        wHeadersFlags a sid es eh pl (prioZero pr) pr.streamDep pr.exclusive pr.weight frag, sid⟩ flagHeadersPriority = !prioZero pr := by
+      by_cases h : pl = 0 <;> cases es <;> cases eh <;> cases prioZero pr <;> simp [has, flagsHas, wHeadersFlags, flagHeadersPriority, h]
+    rw [e1, e2, e3, e4, hlen]
+    congr 1
+    by_cases c1 : pl = 0 <;> cases c2 : prioZero pr <;> simp [c1] <;> omega
+
 end MosnVerif.Lemmas.H2Payload
